@@ -17,6 +17,7 @@
 //   setphase A <hexname> in pr_p pr_phi pr_si_f pr_tk (doubles as hex) / setpatm A patm_x last_patm_x  -> "ok"
 //   icopyraw A           Phreeqc copy(*engine of A) (copy constructor -> InternalCopy); dump_raw of the copy -> "raw <hex>"
 //   find T <hexitem> <0|1>   CParser::find_option(item, real vopts of table T, exact)        -> "I <n>"
+//   merge <this> <source>    cxxNameDouble::merge_redox on maps given as hexname:integer,... ("-" = empty)   -> "M hexname:int,..."
 //   vopts T                  the real option vector                                            -> "V <hex> ..."
 #ifndef CPPUNIT
 #define CPPUNIT 1
@@ -45,6 +46,7 @@
 #include "SScomp.h"
 #include "KineticsComp.h"
 #include "Parser.h"
+#include "NameDouble.h"
 #include "Serializer.h"
 #include "hx.hpp"
 #include <map>
@@ -238,6 +240,29 @@ int main() {
       int n = -7;
       CParser::find_option(hx::unhex(w[2]), &n, *v, w[3] == "1");
       std::cout << "I " << n << "\n";
+      continue;
+    }
+    if (op == "merge" && w.size() == 3) {       // merge <this> <source>: the real cxxNameDouble::merge_redox; maps as hexname:value,...
+      cxxNameDouble m, src;
+      for (int side = 0; side < 2; side++) {
+        const std::string& spec = w[1 + side];
+        if (spec == "-") continue;
+        std::istringstream is(spec);
+        std::string item;
+        while (std::getline(is, item, ',')) {
+          size_t c = item.find(':');
+          (side == 0 ? m : src)[hx::unhex(item.substr(0, c))] = std::stod(item.substr(c + 1));
+        }
+      }
+      m.merge_redox(src);
+      std::cout << "M ";
+      if (m.empty()) std::cout << "-";
+      bool first = true;
+      for (cxxNameDouble::iterator it = m.begin(); it != m.end(); ++it) {
+        std::cout << (first ? "" : ",") << hx::hex(it->first) << ":" << (long long) it->second;
+        first = false;
+      }
+      std::cout << "\n";
       continue;
     }
     if (op == "vopts" && w.size() == 2) {
